@@ -410,6 +410,14 @@ func (l *Lexer) readRawString() string {
 				result.WriteByte('`')
 				continue
 			}
+			// Any other escape is kept as written; consuming both characters keeps
+			// an escaped backslash from escaping the character that follows it
+			if nextChar != 0 {
+				result.WriteByte('\\')
+				l.ReadChar()
+				result.WriteByte(l.CurrentChar)
+				continue
+			}
 		}
 		if l.CurrentChar == '`' {
 			break
